@@ -91,9 +91,13 @@ def _rules():
         "state-vector": [
             lambda R, c, rid: c06.rule_e(R, c, rid),
             lambda R, c, rid: shared.known_state(R, c, rid),
+            lambda R, c, rid: shared.exclude_known(R, c, rid),
         ],
         "text-units": [
             lambda R, c, rid: shared.text_units(R, c, rid),
+        ],
+        "identity": [
+            lambda R, c, rid: shared.branch_identity(R, c, rid),
         ],
         "flags": [
             lambda R, c, rid: preds.rule(R, c, rid, ["flags_check"]),
@@ -104,23 +108,23 @@ def _rules():
 
 # property -> mechanisms it depends on *in addition to* the clauses its own module already runs
 DEPENDS = {
-    "C01": ["squash", "splice", "partial", "flags", "stash-deletes", "lookup", "content", "export", "liveness", "block-wire", "merge", "state-vector"],
+    "C01": ["squash", "splice", "partial", "flags", "stash-deletes", "lookup", "content", "export", "liveness", "block-wire", "merge", "state-vector", "identity"],
     "C02": ["stash-deletes", "lookup", "export", "block-wire", "merge", "state-vector"],
     "C03": ["splice", "conflict", "lookup", "content", "map-api", "text-units"],
     "C04": ["splice", "dependency", "stash-deletes", "lookup", "content", "block-iter"],
     "C05": ["conflict", "squash", "splice", "dependency", "map-api", "merge", "delete-set"],
     "C06": ["dependency", "delete-set", "slice", "partial", "lookup", "content", "merge", "state-vector"],
     "C07": ["delete-set", "slice", "partial", "export", "liveness", "block-wire", "state-vector"],
-    "C08": ["slice", "delete-set", "partial", "block-wire"],
-    "C09": ["slice", "partial", "content"],
+    "C08": ["slice", "delete-set", "partial", "block-wire", "state-vector"],
+    "C09": ["slice", "partial", "content", "identity"],
     "C12": ["splice", "squash", "lookup"],
     "C13": ["splice", "delete-set", "lookup", "content", "export", "liveness", "state-vector"],
-    "C14": ["splice", "liveness", "lookup", "redone", "block-iter"],
-    "C15": ["squash", "splice", "content", "block-wire"],
+    "C14": ["splice", "liveness", "lookup", "redone", "block-iter", "identity"],
+    "C15": ["squash", "splice", "content", "block-wire", "liveness"],
     "C16": ["delete-set"],
     "C17": ["flags", "content", "map-api", "block-iter"],
     "C18": ["dependency", "stash-deletes", "partial", "export", "block-wire", "merge", "state-vector"],
-    "C20": ["dependency", "splice", "squash", "lookup"],
+    "C20": ["dependency", "splice", "squash", "lookup", "identity"],
 }
 
 
